@@ -481,6 +481,14 @@ def conflict_suite(tier, seed):
             d["endpoints"].append(mk_ep("dup", "ms", nw, rng, Alloc(rng, start=0x4000_0000)))
             d["connections"].append({"src": "router", "dst": "dup", "src_idx": [1, 1], "src_dir": "Eject"})
             out.append((d, {"topo": "conflict", "defect": "port-taken-src-dir", "expect": "reject"}))
+        # XY, routers not auto-connected: an endpoint on the East port of router [0,0] gets coordinate (1,0),
+        # the coordinate of the endpoint on the local port of router [1,0]: two endpoints, one identity
+        for nw in (False, True):
+            d, _ = mesh(rng, 2, 1, "XY", nw, force_dir=True)
+            d["routers"][0]["auto_connect"] = False
+            d["endpoints"].append(mk_ep("dup", "s", nw, rng, Alloc(rng, start=0x4000_0000)))
+            d["connections"].append({"src": "dup", "dst": "router", "dst_idx": [0, 0], "dst_dir": "East"})
+            out.append((d, {"topo": "conflict", "defect": "xy-same-coordinate", "expect": "reject"}))
     return out
 
 
